@@ -178,6 +178,20 @@ pub fn c05(c: &mut Ctx, b: &Budget) {
         roundtrip(c, &cur);
         c.end();
     }
+    // envelopes reached through operation histories (the compositions no constructor makes:
+    // obscured copies of present assertions, replaced subjects, removed assertions, decrypted / uncompressed results)
+    let small = GenCfg::default();
+    for i in 0..b.scenarios {
+        c.begin("roundtrip-history");
+        let mut cur = gen_env(c, &small, if i % 2 == 0 { 1 } else { 2 });
+        let steps = c.rng.range(2, 8);
+        for _ in 0..steps {
+            let next = random_op(c, &cur, &small);
+            if c.is_ok(&next) { cur = next; if c.rng.chance(1, 3) { roundtrip(c, &cur); } }
+        }
+        roundtrip(c, &cur);
+        c.end();
+    }
 }
 
 fn roundtrip(c: &mut Ctx, cur: &str) {
@@ -238,6 +252,24 @@ pub fn c07(c: &mut Ctx, b: &Budget) {
                     None => { observe_env(c, &e, true); first = Some((e.clone(), bytes)); }
                     Some((_, b0)) => c.check("permutation-invariant", &bytes == b0, "permutation-invariant", || format!("order {:?}: {}", p, shape(&x))),
                 }
+            }
+        }
+        // the bulk route: the same set in one call, in another order and with repetitions (adjacent and not)
+        if let Some((_, b0)) = first.clone() {
+            let mut order: Vec<usize> = (0..n).collect();
+            c.rng.shuffle(&mut order);
+            let mut list: Vec<String> = order.iter().map(|&j| asserts[j].clone()).collect();
+            match c.rng.below(4) {
+                0 => {}
+                1 => { let x = list[0].clone(); list.push(x); }                                  // [a, .., a]
+                2 => { let x = list[0].clone(); list.insert(1, x); }                               // [a, a, ..]
+                _ => { let k = c.rng.below(list.len()); let x = list[k].clone(); let at = c.rng.below(list.len() + 1); list.insert(at, x); }
+            }
+            let m = c.assign(&format!("add_many {} {}", s, list.join(",")));
+            c.count("branch:bulk-route");
+            if let Some(x) = c.env(&m) {
+                c.obs(&format!("digest {}", m));
+                c.check("bulk-route-invariant", x.tagged_cbor().to_cbor_data() == b0, "bulk-route-invariant", || format!("add_many {:?}: {}", list, shape(&x)));
             }
         }
         // add-then-remove restores; remove last yields the subject; unwrap(wrap)
